@@ -133,7 +133,11 @@ impl Runner for SubprocessRunner {
                         && testcase
                             .config
                             .timeout
-                            .is_some_and(|timeout| started.elapsed() < timeout)))
+                            .is_some_and(|timeout| {
+                                // (clearly before the limit: the wait for the limit
+                                // itself may return a moment early)
+                                started.elapsed() + Duration::from_millis(20) < timeout
+                            })))
                     && matches!(
                         process.wait_timeout(Duration::from_millis(100)),
                         Ok(Some(_))
